@@ -140,13 +140,13 @@ def den : Op R → MatV R
         ((Ms.map (·.den.f)).foldr addM zeroM)
   | kron Ms =>
       forceV ((Ms.map (·.rows)).prod) ((Ms.map (·.cols)).prod)
-        (kronDen (Ms.map (fun M => (⟨M.rows, M.cols, M.den.f, fun _ m => m⟩ : FacAct R))))
+        (kronDen (Ms.map (fun M => (⟨M.rows, M.cols, M.den.f, fun _ m => MatV.of m⟩ : FacAct R))))
   | kronsum Ms =>
       forceV ((Ms.map (·.rows)).prod) ((Ms.map (·.cols)).prod)
-        (kronSumDen (Ms.map (fun M => (⟨M.rows, M.cols, M.den.f, fun _ m => m⟩ : FacAct R))))
+        (kronSumDen (Ms.map (fun M => (⟨M.rows, M.cols, M.den.f, fun _ m => MatV.of m⟩ : FacAct R))))
   | bdiag Ms mults =>
       forceV (dotSum (Ms.map (·.rows)) mults) (dotSum (Ms.map (·.cols)) mults)
-        (bdiagDen ((Ms.map (fun M => (⟨M.rows, M.cols, M.den.f, fun _ m => m⟩ : FacAct R))).zip mults))
+        (bdiagDen ((Ms.map (fun M => (⟨M.rows, M.cols, M.den.f, fun _ m => MatV.of m⟩ : FacAct R))).zip mults))
   | diag _ _ d => MatV.of (diagM d)
   | tridiag _ _ al be ga => MatV.of (tridiagDen al be ga)
   | transpose A => MatV.of (transposeM A.den.f)
